@@ -1,6 +1,9 @@
 (* Structural obligations tying model/C03_Leader.v to the code as it is now (gen/Gen_C03.v is
    regenerated from /repo on every run). *)
 From PDV Require Import lib.Skel gen.Gen_C03 proof.C04_Skel.
+(* the Local TSO Allocator leaderships use the same Leadership / lease code; their election loop, campaign and patrol are
+   pinned by C05's obligations (skel_am_allocatorLeaderLoop_ok, skel_am_campaignAllocatorLeader_ok, ...) *)
+From PDV Require proof.C05_Skel.
 
 (* Campaign: new lease object; Grant; one txn guarded by CreateRevision(leaderKey) = 0 that puts the
    record with the lease attached; the lease is closed on error and on a lost comparison. *)
